@@ -98,3 +98,87 @@ fn vx_opt_remaining_ge(b: &Option<BufferRef>, n: usize) -> (r: bool)
 {
     match b { Some(x) => x.remaining() >= n, None => true }
 }
+
+// ---- composition of the writer's and the reader's contract (C05 / C06): a control packet written by
+//      ControlPacket::write and read back with the matching token hint is the same packet, and no warning is raised.
+//      Checked against the two CONTRACTS only (write is external_body here; its body is verified in unit pkt_write6).
+fn vx_roundtrip_control<'d, 's, 'e, 't, W: Warn<Warning>>(
+    warn: &mut W,
+    c: &ControlPacket<'d>,
+    token: Option<Token>,
+    ack: u16,
+    buffer: BufferRef<'d, 's>,
+    scratch: BufferRef<'e, 't>,
+) where 'd: 'e
+    requires
+        buffer.wf(), buffer.init().len() == 0, buffer.cap() >= 1400,
+        scratch.wf(), scratch.init().len() == 0, scratch.cap() >= 1400,
+        ack < 1024,
+        c is Close ==> c->Close_0@.len() <= 127 && (forall|i: int| 0 <= i < c->Close_0@.len() ==> c->Close_0@[i] != 0),
+    ensures
+        (*final(warn)).count() == (*old(warn)).count(),
+{
+    let w = c.write(token, ack, buffer);
+    assert(w.is_ok());
+    let bytes = w.unwrap();
+    proof {
+        assert(PACKETFLAG_CONTROL == 1u8 && PACKETFLAG_CONNLESS == 2u8 && PACKETFLAG_REQUEST_RESEND == 4u8 && PACKETFLAG_COMPRESSION == 8u8) by (compute_only);
+        let f = ph_flags(bytes@[0]);
+        assert(f == 1u8 ==> (f & 2u8 == 0 && f & 4u8 == 0 && f & 8u8 == 0 && f & 1u8 != 0)) by (bit_vector);
+    }
+    let hint = Some(token.is_some());
+    let r = Packet::read_impl(warn, bytes, hint, Some(scratch));
+    assert(r.is_ok());
+    proof {
+        // positions: bytes = header(3) ++ [id] ++ magic ++ body ++ token
+        let n = bytes@.len() as int;
+        let tl: int = if token.is_some() { 4 } else { 0 };
+        let tk: Seq<u8> = if token.is_some() { token.unwrap().0@ } else { Seq::<u8>::empty() };
+        let mg: Seq<u8> = if (c is Connect || c is ConnectAccept) && token.is_some() { CTRLMSG_TOKEN_MAGIC@ } else { Seq::<u8>::empty() };
+        let body: Seq<u8> = if c is Close { c->Close_0@.push(0u8) } else { Seq::<u8>::empty() };
+        let rest = bytes@.subrange(4, n);
+        assert(rest == mg + body + tk);
+        assert(tk.len() == tl);
+        assert(bytes@.subrange(4, n - tl) =~= rest.subrange(0, rest.len() - tl));
+        assert(rest.subrange(0, rest.len() - tl) =~= mg + body);
+        assert(bytes@.subrange(n - tl, n) =~= rest.subrange(rest.len() - tl, rest.len() as int));
+        assert(rest.subrange(rest.len() - tl, rest.len() as int) =~= tk);
+    }
+    match r.unwrap() {
+        Packet::Connless(_) => { assert(false); }
+        Packet::Connected(p) => {
+            assert(p.ack == ack);
+            assert(p.token.is_some() == token.is_some());
+            assert(token.is_some() ==> p.token.unwrap().0@ =~= token.unwrap().0@);
+            match p.type_ {
+                ConnectedPacketType::Chunks(_, _, _) => { assert(false); }
+                ConnectedPacketType::Control(c2) => {
+                    assert(c2 is KeepAlive == c is KeepAlive);
+                    assert(c2 is Connect == c is Connect);
+                    assert(c2 is ConnectAccept == c is ConnectAccept);
+                    assert(c2 is Accept == c is Accept);
+                    assert(c2 is Close == c is Close);
+                    if let ControlPacket::Close(reason) = c2 {
+                        proof {
+                            let m = c->Close_0@;
+                            let n = bytes@.len() as int;
+                            let tl: int = if token.is_some() { 4 } else { 0 };
+                            let pl = bytes@.subrange(4, n - tl);
+                            assert(pl =~= m.push(0u8));
+                            // the reason read back is a NUL-free prefix of m ++ [0] that ends at a NUL or at 127 bytes
+                            if reason@.len() < m.len() {
+                                assert(pl[reason@.len() as int] == m[reason@.len() as int]);
+                            }
+                            if reason@.len() > m.len() {
+                                assert(reason@[m.len() as int] == pl[m.len() as int]);
+                            }
+                            assert(reason@.len() == m.len());
+                            assert(reason@ =~= m);
+                        }
+                        assert(reason@ == c->Close_0@);
+                    }
+                }
+            }
+        }
+    }
+}
